@@ -16,6 +16,9 @@ CHECKS = {
  "C04": dict(design="3/C04", technique="exhaustive enumeration of formulas x frames (dtype variants, row counts); every label interpreted by a reference label semantics and compared with its column",
    text="Bounded exhaustive model checking on the real design_matrices: every generated formula (all interactions of arity 2-3 in every factor order over two categoricals, an integer-via-C factor and two numerics, alone / with margins / with and without intercept, group-specific terms, numeric / categorical / y[level] responses) on every generated frame (str, unordered and ordered Categorical with declared non-sorted order, unequal level counts, several row counts): each column must equal the meaning of its label, labels and columns equal in number and order, levels sorted or in declared order.",
    note="Trusts the reference label semantics in fmc/checks/c04.py; Sum-coded pieces are C13's business; frames where a declared category is unobserved are not generated."),
+ "C05": dict(design="3/C05", technique="exhaustive enumeration of effect x grouping expressions on fully crossed and holed frames; block-structure invariant and rank/span comparison with the complete-indicator reference",
+   text="Bounded exhaustive model checking on the real design_matrices: every effect expression of the pool (with and without 0 +) crossed with every grouping expression (g, g:h, h:g, g + h, g/h, C(k)) and pairs of terms sharing a factor, on fully crossed frames for 4 (thorough: all 32) level-count vectors over {2,3} and on frames with missing cells: every block must be [cell indicator] x [effect columns] in lexicographic cell order with the effect columns its labels announce, and the columns of one grouping factor must be independent and span all group-by-cell means.",
+   note="Trusts SVD rank with gap check and the reference coding; the 8 effect expressions for which the library's simplified coding rule fails are recorded findings (KNOWN_FINDINGS.txt), matched by effect expression, clause and signature."),
 }
 NOT_YET = {}
 props = [json.loads(l) for l in open(os.path.join(V, "properties.jsonl"))]
